@@ -50,7 +50,9 @@ TERMINATORS = ['quit', 'quit_loop_world', 'quit_loop_default', 'harness',
                # Quit raised while the loop executes a switch: the target
                # handle's load quits (raise SwitchWorld(h) from the frame,
                # or loop.switch(h) called in the frame)
-               'switch_load_quits', 'soft_switch_load_quits']
+               'switch_load_quits', 'soft_switch_load_quits',
+               # quit_loop(w) with a world that is not the running one
+               'quit_loop_other']
 SWITCHES = ['switch', 'raise_switch', 'switch_self']
 # loop.switch(handle) called from inside a frame: no exception, the frame is
 # completed, the next iteration processes the new current world
@@ -112,11 +114,16 @@ def gen_random(rng):
                                rng.randrange(nworlds)])
         events.append([iters - 1, rng.randrange(4), rng.choice(TERMINATORS)])
         starts.append(events)
-    return {'clock': clock, 'worlds': worlds, 'starts': starts}
+    return {'clock': clock, 'worlds': worlds, 'starts': starts,
+            'falsy_worlds': rng.random() < 0.3}
 
 
 def gen_cases(tier, seed):
-    yield from enum_cases()
+    for n, case in enumerate(enum_cases()):
+        if n % 3 == 1:
+            # worlds that are falsy objects (a World subclass with __len__)
+            case['falsy_worlds'] = True
+        yield case
     n = 1500 if tier == 'quick' else 16 * 5000
     for i in range(n):
         yield gen_random(random.Random(f'C14/{seed}/{tier}/{i}'))
@@ -176,8 +183,14 @@ def run_case(case):
     Listener = desper.event_handler('on_quit')(
         type('QuitListener', (), {'on_quit': on_quit}))
 
+    class FalsyWorld(desper.World):
+        def __len__(self):
+            return 0
+
+    if case.get('falsy_worlds'):
+        res.tags['falsy_worlds'].add(True)
     for wi, nprocs in enumerate(case['worlds']):
-        w = desper.World()
+        w = FalsyWorld() if case.get('falsy_worlds') else desper.World()
         for pj in range(nprocs):
             w.add_processor(make_proc(wi, pj))
         lst = Listener()
@@ -215,6 +228,14 @@ def run_case(case):
             raise desper.Quit()
         if kind in ('quit_loop_world', 'quit_handler_raises'):
             desper.quit_loop(worlds[wi])
+        if kind == 'quit_loop_other':
+            other = worlds[(wi + 1) % len(worlds)]
+            # a world that was left through switch() holds its events (the
+            # held on_quit would surface in a later start): quit plainly
+            state['other_enabled'] = other.dispatch_enabled
+            if not other.dispatch_enabled:
+                raise desper.Quit()
+            desper.quit_loop(other)
         if kind == 'quit_loop_default':
             desper.quit_loop()
         fault['obj'] = HarnessError('fault')
@@ -377,8 +398,16 @@ def judge_start(case, res, s, events, log, reads, outcome, fault, loop,
             values[-1] - values[0]), str(total))
     # ---- on_quit
     quits = [e for e in log if e[0] == 'on_quit']
-    if kind in ('quit_loop_world', 'quit_loop_default', 'quit_handler_raises'):
+    if kind in ('quit_loop_world', 'quit_loop_default', 'quit_handler_raises',
+                'quit_loop_other'):
         w = model[-1]['world']
+        if kind == 'quit_loop_other':
+            w = (w + 1) % len(worlds)
+            if not state.get('other_enabled', True):
+                if quits:
+                    return fail('on-quit', 'on_quit delivered without '
+                                'quit_loop', [], [e[3] for e in quits])
+                return True
         if [e[3] for e in quits] != [w]:
             return fail('on-quit', 'on_quit deliveries before a quit_loop '
                         'exit', [w], [e[3] for e in quits])
